@@ -1,22 +1,19 @@
 """C11 — TLS-required and AUTH policies cannot be bypassed (engine gate, DESIGN.md §5 C11)."""
+import glob
 import os
 import re
 import framework
-from framework import REPO
+from framework import REPO, ROOT
 
 TIE = ["Nsq.Tie.Gate"]
 PROPS = ["Nsq.Props.C11"]
 
 DENY_CODES = ("E_AUTH_FIRST", "E_AUTH_FAILED", "E_UNAUTHORIZED", "E_AUTH_DISABLED")
-
-
-def load(ctx, name):
-    return (open(os.path.join(ctx.work, name + ".ops")).read().splitlines(),
-            open(os.path.join(ctx.work, name + ".impl")).read().splitlines())
+OPS = ("cfg", "http", "conn", "c", "cx", "x")
 
 
 def broker_of(line):
-    m = re.search(r"broker=(\S+)", line)
+    m = re.search(r"broker=(\S+)", line or "")
     return m.group(1) if m else None
 
 
@@ -27,9 +24,9 @@ def content_of(broker):
     return ";".join(re.sub(r":\d+", "", t) for t in broker.split(";"))
 
 
-def property_fails_on(cfgline, prev_impl_broker, op, impl):
+def property_fails_on(prev_impl_broker, op, impl):
     """Given one command and the *implementation's* answer: does the property itself fail?
-    (used when model and implementation disagree; the Go-side oracle covers the rest)"""
+    (used when model and implementation disagree; the Go-side oracle covers the other clauses)"""
     w = op.split()
     if w[0] not in ("c", "cx"):
         return None
@@ -37,7 +34,7 @@ def property_fails_on(cfgline, prev_impl_broker, op, impl):
     first = impl.split(" close=")[0].split("|")[0] if impl else ""
     code = first.split(":")[0]
     after = broker_of(impl)
-    if code in DENY_CODES or (code == "E_INVALID" and "TLS" in first):
+    if code in DENY_CODES:
         if prev_impl_broker is not None and content_of(after) != content_of(prev_impl_broker):
             return "%s denied with %s changed the broker: %s -> %s" % (cmd, code, prev_impl_broker, after)
         if " close=1" not in impl:
@@ -45,30 +42,136 @@ def property_fails_on(cfgline, prev_impl_broker, op, impl):
     return None
 
 
+class Stream:
+    """one harness run + the model's replay of its op lines"""
+
+    def __init__(self, ctx, binp, test, stream, env, timeout=1700):
+        self.ok = False
+        self.stream = stream
+        rc, out = ctx.run_cmd([binp, "-test.run", test, "-test.count=1", "-test.timeout=25m"], timeout=timeout, env=env)
+        self.out = out
+        self.rc = rc
+        self.fails = []           # (key, index or None, detail)
+        for l in out.splitlines():
+            if l.startswith("ORACLE-FAIL"):
+                m = re.match(r"ORACLE-FAIL (\S+) (?:@(\d+) )?\| (.*)", l)
+                if m:
+                    self.fails.append((m.group(1), int(m.group(2)) if m.group(2) else None, m.group(3)))
+        self.oks = [l for l in out.splitlines() if l.startswith("ORACLE-OK")]
+        self.hist = {}
+        for l in out.splitlines():
+            if l.startswith("HIST "):
+                _, k, v = l.split(" ", 2)
+                self.hist[k] = int(v)
+        self.ops, self.impl, self.model, self.diffs = [], [], [], []
+        if rc != 0 or not self.oks:
+            return
+        self.ops = open(os.path.join(ctx.work, stream + ".ops")).read().splitlines()
+        self.impl = open(os.path.join(ctx.work, stream + ".impl")).read().splitlines()
+        rc2, mout = ctx.driver("gate", stdin_path=os.path.join(ctx.work, stream + ".ops"))
+        self.model = mout.splitlines()
+        self.ok = True
+
+    def context(self, idx, minimal):
+        """op lines needed to replay line idx: its configuration and (minimal) only its own
+        connection, or the whole history of that nsqd instance up to idx"""
+        start = max([j for j in range(idx + 1) if self.ops[j].startswith("cfg ")] or [0])
+        if not minimal:
+            return [l for l in self.ops[start:idx + 1]]
+        w = self.ops[idx].split()
+        cid = w[1] if w[0] in ("c", "cx", "x", "conn") else None
+        keep = [self.ops[start]]
+        for l in self.ops[start + 1:idx + 1]:
+            lw = l.split()
+            if cid is not None and lw[0] in ("c", "cx", "x", "conn") and lw[1] == cid:
+                keep.append(l)
+        return keep
+
+
+def replay_lines(ctx, binp, env, lines, tag):
+    p = os.path.join(ctx.work, "replay_%s.ops" % tag)
+    with open(p, "w") as f:
+        f.write("\n".join(lines) + "\n")
+    return Stream(ctx, binp, "^TestVerifGateReplay$", "gaterp", dict(env, VERIF_REPLAY=p), timeout=600)
+
+
+def shrink(ctx, binp, env, st, idx, reproduces):
+    """two-step shrink: try the failing connection alone, else the instance's whole history"""
+    for minimal in (True, False):
+        lines = st.context(idx, minimal)
+        r = replay_lines(ctx, binp, env, lines, "shrink")
+        if r.ok and reproduces(r):
+            return lines, True
+    return st.context(idx, False), False
+
+
+def report(ctx, binp, env, st, label):
+    """oracle failures and model/implementation disagreements of one stream → verdict inputs.
+    Returns the list of broken correspondences."""
+    broken = []
+    seen_keys = set()
+    for key, idx, detail in st.fails:
+        if key in seen_keys:
+            continue
+        seen_keys.add(key)
+        if idx is not None and idx < len(st.ops) and st.stream != "gateia":
+            lines, ok = shrink(ctx, binp, env, st, idx, lambda r, key=key: any(k == key for k, _, _ in r.fails))
+            body = "# C11 oracle failure %s\n# %s\n# replay: ./check C11 --replay <this file>%s\n%s\n" % (
+                key, detail[:600], "" if ok else "  (did not reproduce in isolation: timing or history dependent)",
+                "\n".join(lines))
+        else:
+            body = "# C11 oracle failure %s\n# %s\n" % (key, detail)
+        ctx.violation(key, detail[:400], body)
+    if st.rc != 0 or not st.oks:
+        ctx.log("harness %s failed (rc=%s):\n%s" % (label, st.rc, st.out[-3000:]))
+        broken.append("harness %s exit %s" % (label, st.rc))
+        return broken
+    diffs = ctx.diff_lines(st.impl, st.model, label)
+    for idx, a, b in diffs[:3]:
+        ctx.log("model/impl disagree on `%s`:\n   impl=%s\n   model=%s" % (st.ops[idx][:300], a, b))
+        broken.append("correspondence %s line %d: %s" % (label, idx, st.ops[idx][:120]))
+        prev = broker_of(st.impl[idx - 1]) if idx > 0 else None
+        bad = property_fails_on(prev, st.ops[idx], a)
+        lines = st.context(idx, False) if st.stream != "gateia" else [st.ops[idx]]
+        body = "# C11 model/implementation disagreement on the last line\n#   impl:  %s\n#   model: %s\n%s\n" % (a, b, "\n".join(lines))
+        if bad:
+            w = st.ops[idx].split()
+            ctx.violation("corr:" + (w[4] if len(w) > 4 else w[0]), bad, body)
+        else:
+            ctx.write_replay("corr_%s_%d.ops" % (label, idx), body)
+    return broken
+
+
 def run(ctx):
     ctx.trusted += [
-        "translator tools/go2lean (kinds calls, stmts, errsites, consts, toplevel): order-of-statements facts of "
-        "Exec / PUB / MPUB / DPUB / SUB / CheckAuth / AUTH / enforceTLSPolicy / IsAuthorized / IsExpired / ServeHTTP / Main",
-        "crypto/tls (handshake outcome per client-certificate policy is an input of the model, compared on every "
-        "policy x certificate combination), net/http + encoding/json of the auth client, regexp (abstract Matcher "
-        "in every theorem; concrete family compared line by line in the rx stream)",
-        "Go runtime: one IOLoop goroutine per connection executes commands sequentially",
+        "translator tools/go2lean (kinds toplevel, stmts, errsites, callers, fieldwrites, consts, calls): statement "
+        "skeletons of Exec / PUB / MPUB / DPUB / SUB / CheckAuth / AUTH / IDENTIFY / enforceTLSPolicy / IsAuthorized / "
+        "IsExpired / IsAllowed / QueryAuthd / UpgradeTLS / ServeHTTP / Main / New / buildTLSConfig; a top-level "
+        "`if …{return}` followed by statements is read as dominance",
+        "crypto/tls (the handshake outcome per client-certificate policy is a decision table of the model, compared on "
+        "every policy x certificate combination), net/http + encoding/json of the auth client, regexp (an arbitrary "
+        "Matcher in every theorem; the concrete pattern family of the harness is compared line by line in the rx stream)",
+        "Go runtime: one IOLoop goroutine per connection executes its commands sequentially",
         "correspondence harness harness/gate/gate_test.go (real TCP + TLS against in-process nsqd, stub auth server, "
         "white-box reads of client.TLS / State / AuthState and of the topic / channel maps; AuthState.Expires is set "
-        "white-box from a virtual clock)",
+        "white-box from a virtual clock, never by sleeping)",
     ]
     ctx.assumptions += [
         "time.Now() readings are arbitrary inputs (no monotonicity assumed)",
         "the auth server is an arbitrary function of the request at every instant (may fail, change its mind, return empty grants)",
         "regexp is an arbitrary Matcher (compiles, isMatch) in every theorem",
+        "FIN/REQ/TOUCH may do anything to the broker once past their own guards (parameter Ext)",
+        "deny_is_fatal and requery_after_ttl are stated for commands that reach CheckAuth (hypothesis: not rejected "
+        "for TLS or for their arguments before the check)",
     ]
     ctx.rule = ("correspondence: one in-process nsqd per policy configuration (tls-required x client-cert policy x "
-                "certificate x auth), generated connection scenarios (IDENTIFY variants incl. every client certificate "
-                "kind, AUTH variants, every command with valid and malformed arguments, virtual time before/after the "
-                "TTL, scripted auth answers: errors, bad JSON, bad TTL/permission/regex, empty grants, changes of mind); "
-                "one line per command = replies, closure, auth-server requests seen, TLS/state/auth flags and the "
-                "broker's topics/channels/message counts/subscriber counts; a case is distinct by its op line within its "
-                "configuration and connection history, non-trivial unless it is bookkeeping (conn/x lines)")
+                "certificate x auth; 29 configurations incl. 3 that New must refuse), generated connection scenarios "
+                "(IDENTIFY variants with every client certificate kind, AUTH variants, every command with valid and "
+                "malformed arguments, virtual time before/after the TTL, scripted auth answers: HTTP errors, bad JSON, bad "
+                "TTL/permission/regex, empty grants, changes of mind); one line per command = replies, closure, auth-server "
+                "requests seen, TLS/state/auth flags and the broker's topics/channels/message counts/subscriber counts; a "
+                "case is distinct by its op line (which carries connection id, virtual time, scripted answer and command), "
+                "non-trivial unless it is bookkeeping (conn/x lines)")
     gen_ok, _ = ctx.gen("gate_facts")
     ok, log = ctx.lean_build(TIE + PROPS)
     if not ok:
@@ -86,57 +189,45 @@ def run(ctx):
     else:
         env = {"VERIF_SEED": ctx.seed, "VERIF_OUT": ctx.work,
                "VERIF_CERTS": os.path.join(REPO, "nsqd", "test", "certs")}
-        runs = [("^TestVerifGateAllowed$", "gateia", ctx.budget(20000, 200000)),
-                ("^TestVerifGateCorr$", "gate", ctx.budget(5000, 80000))]
-        for test, stream, n in runs:
-            rc, out = ctx.run_cmd([binp, "-test.run", test, "-test.count=1", "-test.timeout=25m"], timeout=1700,
-                                  env=dict(env, VERIF_N=n))
-            fails = [l for l in out.splitlines() if l.startswith("ORACLE-FAIL")]
-            oks = [l for l in out.splitlines() if l.startswith("ORACLE-OK")]
-            hist = {}
-            for l in out.splitlines():
-                if l.startswith("HIST "):
-                    _, k, v = l.split(" ", 2)
-                    hist[k] = int(v)
-            if hist:
-                ctx.corr["histogram"] = hist
-            seen_keys = set()
-            for l in fails:
-                key = l.split(" ", 2)[1]
-                if key in seen_keys:
-                    continue
-                seen_keys.add(key)
-                ctx.violation(key, l[len("ORACLE-FAIL "):][:400],
-                              "\n".join(x for x in fails if x.split(" ", 2)[1] == key)[:6000] + "\n")
-            if rc != 0 or not oks:
-                ctx.log("harness %s failed (rc=%s):\n%s" % (test, rc, out[-3000:]))
-                corr_broken.append("harness %s exit %s" % (test, rc))
-                continue
-            ctx.corr.setdefault("oracle", []).append("%s %s" % (stream, oks[0]))
-            ops, impl = load(ctx, stream)
-            rc, mout = ctx.driver("gate", stdin_path=os.path.join(ctx.work, stream + ".ops"))
-            model = mout.splitlines()
-            for o, i in zip(ops, impl):
-                ctx.count_case(o, nontrivial=not (o.startswith("conn ") or o.startswith("x ")))
-            for o, i in list(zip(ops, impl))[3:6] + list(zip(ops, impl))[-2:]:
-                ctx.add_sample({"op": o[:300], "impl": i[:300]})
-            diffs = ctx.diff_lines(impl, model, stream)
-            for idx, a, b in diffs:
-                # replay context: the configuration line and the lines of this connection
-                start = max(j for j in range(idx + 1) if ops[j].startswith("cfg ") or j == 0)
-                ctxt = "\n".join("%s\n   impl:  %s\n   model: %s" % (ops[j], impl[j], model[j] if j < len(model) else "<missing>")
-                                 for j in range(start, idx + 1)
-                                 if ops[j].startswith("cfg ") or j >= idx - 12)
-                ctx.log("model/impl disagree on `%s`:\n   impl=%s\n   model=%s" % (ops[idx][:300], a, b))
-                corr_broken.append("correspondence %s line %d: %s" % (stream, idx, ops[idx][:120]))
-                prev = broker_of(impl[idx - 1]) if idx > 0 else None
-                bad = property_fails_on(ops[start], prev, ops[idx], a)
-                if bad:
-                    w = ops[idx].split()
-                    ctx.violation("corr:" + (w[4] if len(w) > 4 else w[0]), bad, ctxt + "\n")
-                else:
-                    ctx.write_replay("corr_%s_%d.txt" % (stream, idx), ctxt + "\n")
+        if ctx.replay_in:
+            # --replay <file>: re-execute one recorded op file, show implementation and model side by side
+            st = Stream(ctx, binp, "^TestVerifGateReplay$", "gaterp", dict(env, VERIF_REPLAY=os.path.abspath(ctx.replay_in)))
+            for i, o in enumerate(st.ops):
+                m = st.model[i] if i < len(st.model) else "<missing>"
+                print("%s\n   impl:  %s\n   model: %s%s" % (o, st.impl[i], m, "" if m == st.impl[i] else "   <-- differ"))
+            for key, idx, detail in st.fails:
+                print("ORACLE-FAIL %s | %s" % (key, detail))
+            corr_broken += report(ctx, binp, env, st, "replay")
+        else:
+            # 0: the corpus of past failures (minimised replays of mutation trials) runs first
+            corpus = sorted(glob.glob(os.path.join(ROOT, "corpus", "C11", "*.ops")))
+            if corpus:
+                st = Stream(ctx, binp, "^TestVerifGateReplay$", "gaterp",
+                            dict(env, VERIF_REPLAY=os.path.join(ROOT, "corpus", "C11")))
+                ctx.corr["corpus"] = {"files": len(corpus), "lines": len(st.ops)}
+                for o in st.ops:
+                    ctx.count_case("corpus:" + o, nontrivial=not (o.startswith("conn ") or o.startswith("x ")))
+                corr_broken += report(ctx, binp, env, st, "corpus")
+            runs = [("^TestVerifGateAllowed$", "gateia", ctx.budget(20000, 200000)),
+                    ("^TestVerifGateCorr$", "gate", ctx.budget(5000, 80000))]
+            for test, stream, n in runs:
+                st = Stream(ctx, binp, test, stream, dict(env, VERIF_N=n))
+                if st.hist:
+                    ctx.corr["histogram"] = st.hist
+                if st.oks:
+                    ctx.corr.setdefault("oracle", []).append("%s %s" % (stream, st.oks[0]))
+                cfg = ""
+                for o in st.ops:
+                    # the same op line under another configuration is another case
+                    if o.startswith("cfg "):
+                        cfg = o
+                    ctx.count_case(cfg + "|" + o, nontrivial=not (o.startswith("conn ") or o.startswith("x ")))
+                zipped = list(zip(st.ops, st.impl))
+                for o, i in zipped[3:5] + zipped[len(zipped) // 2:len(zipped) // 2 + 3] + zipped[-2:]:
+                    ctx.add_sample({"op": o[:300], "impl": i[:300]})
+                corr_broken += report(ctx, binp, env, st, stream)
     if (ctx.broken_ties or corr_broken) and not ctx.violations:
         ctx.broken_without_input(ctx.broken_ties + corr_broken,
                                  "search: %d generated commands under the direct oracle (TLS gate, auth gate, "
-                                 "deny-no-trace, re-query after TTL, HTTP gate) found no property failure" % ctx.evaluations)
+                                 "deny-no-trace, documented codes, re-query after TTL, HTTP gate) found no property "
+                                 "failure" % ctx.evaluations)
